@@ -1102,6 +1102,42 @@ func TestVerifC23(t *testing.T) {
 		r2 := e.decode(2, odd)
 		misc["OddFrame"] = map[string]any{"Legacy": r1.Class, "WithMetadata": r2.Class}
 	}
+	{
+		// FramePool: Get(n) after Puts of aligned and misaligned buffers must hand out exactly n bytes
+		// backed by the bucket capacity the model predicts (pool_cap), never less than n.
+		fp := NewFramePool()
+		var pairs [][2]int
+		poolFail := ""
+		func() {
+			defer func() {
+				if p := recover(); p != nil {
+					poolFail = fmt.Sprintf("FramePool panicked: %v", p)
+				}
+			}()
+			sizes := []int{0, 1, 255, 256, 257, 511, 512, 513, 1000, 4095, 4096, 4097, 65535, 65536, 65537, 1 << 20, 1<<22 - 1, 1 << 22, 1<<22 + 1, 5 << 20}
+			for round := 0; round < 3; round++ {
+				for _, n := range sizes {
+					b := fp.Get(n)
+					if len(b) != n || cap(b) < n {
+						poolFail = fmt.Sprintf("FramePool.Get(%d) returned len=%d cap=%d", n, len(b), cap(b))
+					}
+					for i := range b {
+						b[i] = byte(i)
+					}
+					pairs = append(pairs, [2]int{n, cap(b)})
+					fp.Put(b)
+					// misaligned and foreign buffers must be dropped, not filed under a bucket they cannot serve
+					fp.Put(make([]byte, n/2+3))
+					fp.Put(make([]byte, 0, n+1))
+					if n > 8 {
+						fp.Put(b[:n/2:n/2+1])
+					}
+				}
+			}
+		}()
+		misc["PoolPairs"] = pairs
+		misc["PoolFail"] = poolFail
+	}
 	misc["TypesCovered"] = len(typesSeen)
 	misc["TypesAvailable"] = len(types)
 	mb, _ := json.Marshal(misc)
